@@ -79,7 +79,24 @@ func newPos(l *lookup, fileName, funcName string, line, column int) pos {
 	// return struct{}{}
 	fileNameIdx := l.Index("#" + fileName)
 	funcNameIdx := l.Index("#" + funcName)
-	return pos((fileNameIdx << 48) | (funcNameIdx << 32) | (line << 16) | column)
+	return packPos(fileNameIdx, funcNameIdx, line, column)
+}
+
+// packPos packs a position into four 16-bit fields. A value that does not fit saturates, so that
+// it cannot spill into the neighbouring field (a line number beyond 65535 used to corrupt the
+// function-name index, which pos.info then looked up).
+func packPos(fileNameIdx, funcNameIdx, line, column int) pos {
+	return pos(clamp16(fileNameIdx)<<48 | clamp16(funcNameIdx)<<32 | clamp16(line)<<16 | clamp16(column))
+}
+
+func clamp16(n int) int {
+	if n < 0 {
+		return 0
+	}
+	if n > 0xffff {
+		return 0xffff
+	}
+	return n
 }
 
 // sameLine reports whether two positions are on the same line of the same file and function.
